@@ -456,8 +456,8 @@ fn case_strategy(tier: Tier) -> impl Strategy<Value = Case> {
 }
 
 pub fn check() -> Option<Check> {
-    let real = prop("history_real_path", 20_000, 400_000, case_strategy, |c: &Case, rec: &mut Rec| run_history(c, Mode::Real, rec));
-    let direct = prop("history_direct", 100_000, 2_000_000, case_strategy, |c: &Case, rec: &mut Rec| run_history(c, Mode::Direct, rec));
+    let real = prop("history_real_path", 40_000, 400_000, case_strategy, |c: &Case, rec: &mut Rec| run_history(c, Mode::Real, rec));
+    let direct = prop("history_direct", 200_000, 2_000_000, case_strategy, |c: &Case, rec: &mut Rec| run_history(c, Mode::Direct, rec));
     Some(Check {
         id: "C12",
         level: "exploration",
